@@ -123,8 +123,7 @@ func (b CCFeedbackReport) Marshal() ([]byte, error) {
 	if err != nil {
 		return nil, err
 	}
-	length := 4 * (header.Length + 1)
-	buf := make([]byte, length)
+	buf := make([]byte, b.MarshalSize())
 	copy(buf[:headerLength], headerBuf)
 	binary.BigEndian.PutUint32(buf[headerLength:], b.SenderSSRC)
 	offset := reportBlockOffset
